@@ -873,7 +873,9 @@ class Engine:
                 if forced is not None and truth != forced: continue
                 f = fact_of(d, truth)
                 if contradicts(st.facts, f): continue
-                ns = st.copy(); ns.facts = ns.facts | {f}
+                # ('tested', cond): polarity-free marker, survives the join of the two outcomes —
+                # "on every path to here this condition has been evaluated"
+                ns = st.copy(); ns.facts = ns.facts | {f, ('tested', d)}
                 outs.append((tg, ns))
             return outs
         forced = self.assume_int(d) if self.assume_int else None
